@@ -241,26 +241,41 @@ func unpackBytes(p []int64) []byte {
 
 // ---- descriptors, by reflection ----
 
-func bytesOf(s string) []int64 {
-	r := make([]int64, len(s))
+// bytesOf writes a string (or a payload) for the case file: (B [x67; x2e; ...]), one Coq.Init.Byte
+// constructor per byte
+func bytesOf(s string) hx.T {
+	l := make([]any, len(s))
 	for i := 0; i < len(s); i++ {
-		r[i] = int64(s[i])
+		l[i] = fmt.Sprintf("x%02x", s[i])
 	}
-	return r
+	return hx.C("B", l)
 }
 
-// strOf reads a string back: the packed form, or a plain list of bytes (hand-written corpus lines)
-func strOf(a any) string {
-	if t, ok := a.(hx.T); ok && t.Name == "U" {
-		return string(unpackBytes(t.Ints(0)))
+// rawOf reads bytes back: the B form, a plain list of byte values, or (payloads of hand-written
+// corpus lines) the packed form [length; 7-byte big-endian chunks...]
+func rawOf(a any, packed bool) []byte {
+	if t, ok := a.(hx.T); ok && t.Name == "B" {
+		l := t.Args[0].([]any)
+		b := make([]byte, len(l))
+		for i, x := range l {
+			var v int
+			fmt.Sscanf(hx.AsTerm(x).Name, "x%02x", &v)
+			b[i] = byte(v)
+		}
+		return b
+	}
+	if packed {
+		return unpackBytes(hx.Ints(a))
 	}
 	l := a.([]any)
 	b := make([]byte, len(l))
 	for i, x := range l {
 		b[i] = byte(x.(int64))
 	}
-	return string(b)
+	return b
 }
+
+func strOf(a any) string { return string(rawOf(a, false)) }
 
 func paramDesc(t reflect.Type) hx.T {
 	return hx.C("P", t.Kind() == reflect.Ptr, t.Implements(tICtx), t.Kind() == reflect.Func,
@@ -606,7 +621,7 @@ func Exec(ops []hx.T) (norm []hx.T, obs []any, nontrivial bool, seenTags map[str
 			obs = append(obs, hx.C("BArg", r))
 		case "OCallSer":
 			k, ser, route := o.Int(0), o.Str(1), strOf(o.Args[2])
-			data := unpackBytes(o.Ints(3))
+			data := rawOf(o.Args[3], true)
 			ctx, withCB := ctxOf(o.Args[5]), o.Bool(6)
 			curBeh = hx.AsTerm(o.Args[7]).Name
 			var cb apientry.HandlerCBFunc
@@ -617,7 +632,7 @@ func Exec(ops []hx.T) (norm []hx.T, obs []any, nontrivial bool, seenTags map[str
 			tr, esc := guarded(func() { apientry.CallWithSerialize(c, ctx, route, data, cb, serOf(ser)) })
 			nontrivial = nontrivial || len(tr) > 0
 			note(tr, esc, withCB)
-			norm = append(norm, hx.C("OCallSer", k, ser, o.Args[2], o.Args[3], decodeTable(ser, data, inUse), o.Args[5], withCB, o.Args[7]))
+			norm = append(norm, hx.C("OCallSer", k, ser, bytesOf(route), bytesOf(string(data)), decodeTable(ser, data, inUse), o.Args[5], withCB, o.Args[7]))
 			obs = append(obs, hx.C("BCall", tr, esc))
 		case "OCall":
 			k, route := o.Int(0), strOf(o.Args[1])
@@ -641,7 +656,7 @@ func Exec(ops []hx.T) (norm []hx.T, obs []any, nontrivial bool, seenTags map[str
 			obs = append(obs, hx.C("BCall", tr, esc))
 		case "ODispatch":
 			ks, rid, route := o.Ints(0), o.Int(1), strOf(o.Args[2])
-			data := unpackBytes(o.Ints(3))
+			data := rawOf(o.Args[3], true)
 			curBeh = hx.AsTerm(o.Args[7]).Name
 			if w == nil {
 				w = newWorld()
@@ -688,7 +703,7 @@ func Exec(ops []hx.T) (norm []hx.T, obs []any, nontrivial bool, seenTags map[str
 				seenTags["obs:escaped-panic"] = true
 			}
 			rawok := gproto.Unmarshal(data, &msgs.TestHello{}) == nil
-			norm = append(norm, hx.C("ODispatch", o.Args[0], rid, o.Args[2], o.Args[3], decodeTable("SProto", data, inUse), rawok,
+			norm = append(norm, hx.C("ODispatch", o.Args[0], rid, bytesOf(route), bytesOf(string(data)), decodeTable("SProto", data, inUse), rawok,
 				hx.C("CTyp", int64(9)), o.Args[7]))
 			obs = append(obs, hx.C("BDisp", inv, rl, snap.fell, esc))
 		case "OFire":
